@@ -215,20 +215,34 @@ func (c *Channel) JoinPresence(ctx context.Context, p stanza.Presence, opt ...Op
 	if p.ID == "" {
 		p.ID = attr.RandomID()
 	}
-	p.To = c.addr
 
 	conf := config{}
 	for _, o := range opt {
 		o(&conf)
 	}
 	c.pass = conf.password
+	newAddr := c.addr
 	if conf.newNick != "" {
-		newAddr, err := c.addr.WithResource(conf.newNick)
+		var err error
+		newAddr, err = c.addr.WithResource(conf.newNick)
 		if err != nil {
 			return err
 		}
-		c.addr = newAddr
 	}
+
+	// Register (or re-register) the channel under the occupant JID that is
+	// requested, which is where the room's self-presence will come from.
+	c.client.managedM.Lock()
+	if c.client.managed == nil {
+		c.client.managed = make(map[string]*Channel)
+	}
+	if old := c.addr.String(); old != newAddr.String() && c.client.managed[old] == c {
+		delete(c.client.managed, old)
+	}
+	c.addr = newAddr
+	c.client.managed[c.addr.String()] = c
+	c.client.managedM.Unlock()
+	p.To = c.addr
 
 	ctx, cancel := context.WithCancel(ctx)
 	defer cancel()
